@@ -247,12 +247,16 @@ func (w *W) startDecLoop(arr *ArrCtx, loop *Loop, body *ast.BlockStmt) {
 	behs := []*string{&k.Zero, &k.Null, &k.Neg}
 	for i, c := range arr.classes {
 		b := "BKeep"
+		st := c.assigned[loop.coll.key()]
+		if st == "" && loop.coll.obj.what == "coll" && len(loop.coll.path) == 0 {
+			st = c.assigned["var:"+loop.coll.obj.name]
+		}
 		switch {
 		case c.panicky:
 			b = "BPanic"
-		case c.assigned[loop.coll.key()] == "empty":
+		case st == "empty":
 			b = "BEmpty"
-		case c.assigned[loop.coll.key()] == "nil":
+		case st == "nil":
 			b = "BNil"
 		}
 		*behs[i] = b
@@ -396,7 +400,7 @@ func (w *W) lvalueKey(l ast.Expr) string {
 		return ""
 	}
 	defer func() { _ = recover() }()
-	if pl, ok := w.eval(l).(*Place); ok {
+	if pl, ok := w.evalL(l).(*Place); ok {
 		return pl.key()
 	}
 	return ""
